@@ -448,7 +448,7 @@ func (x *Exec) strLit(s string) *Val {
 	name := fmt.Sprintf("strlit!%d", len(x.strLits))
 	x.vc.declare(name, sArrI)
 	for i := 0; i < len(s); i++ {
-		x.vc.assume(tEq(tSel(name, num(int64(i))), num(int64(s[i]))))
+		x.vc.assumeGlobal(tEq(tSel(name, num(int64(i))), num(int64(s[i]))))
 	}
 	v := &Val{Ty: types.Typ[types.String], L: []string{name, "0", num(int64(len(s)))}, X: &StrLit{s}}
 	x.strLits[s] = v
